@@ -47,6 +47,22 @@ def oracle_ints(case, variants=True):
             return ('accepts', 'from_bytes(%r) returned a message whose bytes() raises %r' % (list(case), e))
         if list(back) != list(case) or not valid_msg(m):
             return ('accepts', 'from_bytes(%s %r) returned %r whose bytes() are %r' % (fname, list(case), m, list(back)))
+        # the message belongs to its caller now: edited (and the list it gave edited), the next from_bytes of the same input must not notice
+        canon.scribble(m)
+        try:
+            back.append(0)
+        except AttributeError:
+            pass
+    if True:
+        canon.noise()
+        try:
+            m = mido.Message.from_bytes(forms[0][1])
+        except ValueError:
+            return None
+        except Exception as e:  # noqa: BLE001
+            return ('raises:' + type(e).__name__, 'from_bytes(%r), asked again, raised %r' % (list(case), e))
+        if list(m.bytes()) != list(case) or not valid_msg(m):
+            return ('accepts', 'from_bytes(%r), asked again after its caller had edited the first answer, returned %r whose bytes() are %r' % (list(case), m, list(m.bytes())))
     return None
 
 
@@ -109,7 +125,7 @@ def _sweep(job):
 def _job(job):
     if job[0] == 'sweep':
         return _sweep(job[1])
-    rec = core.eval_cases(COMP_DEC, job[1], impl_dec)
+    rec = core.eval_cases(COMP_DEC, job[1], impl_dec, repeat=200, fresh=True)
     rec['distinct'] = 0
     return rec
 
@@ -319,7 +335,7 @@ def run(out):
         out.nontrivial_extra += rec.get('distinct', 0)
         core.merge_into(out, rec, 'dec')
     check_pyval(out)
-    core.merge_into(out, core.eval_cases(COMP_ITEMS, item_cases(rng), impl_items), 'items (arbitrary Python items, model component 6)')
+    core.merge_into(out, core.eval_cases(COMP_ITEMS, item_cases(rng), impl_items, repeat=200), 'items (arbitrary Python items, model component 6)')
     out.rule = ('every byte string of length 0..2 over 0..255 (65 793) in both tiers, length 3 completely in the thorough tier '
                 '(16 843 009 in total) and for 15 first bytes in the quick tier; strings of length 3..6 over a boundary alphabet '
                 'incl. out-of-byte-range items, truncated/extended encodings of boundary messages, sysex with bad terminators; '
